@@ -51,3 +51,41 @@ def run_case(ctx, case):
     cc.run_core_case(ctx, case, "c13", classify, coverage,
                      compare_kw={"only_vars": params},
                      judge_filter=lambda m: m[0].startswith("var:"))
+
+
+# ----------------------------------------------------------------------------------------
+# thorough tier: the recorded closure workload plus recursive-iteration programs (the only callers
+# of the unsafe iterator in src/value/value/iter.rs) replayed under Miri
+
+MIRI_PROGRAMS = [
+    'map_values({"a": {"b": 1, "c": [1, {"d": 2}]}, "e": [[], {}]}, recursive: true) -> |v| { if is_integer(v) { int!(v) + 1 } else { v } }',
+    'map_keys({"a": {"b": 1, "c": {"d": {"e": 2}}}}, recursive: true) -> |k| { upcase(k) }',
+    'map_values({"a": [1, 2, 3], "b": {"c": "x"}}, recursive: true) -> |v| { if is_array(v) { "flat" } else { v } }',
+    'map_values([[1, [2, [3]]], {"k": [4]}], recursive: true) -> |v| { if is_integer(v) { [] } else { v } }',
+    'map_keys({"a": {"a": {"a": 1}}, "b": 2}, recursive: true) -> |k| { k + "_" }',
+    'x = 1\nmap_values({"a": {"b": 0}}, recursive: true) -> |x| { 10 / (int(x) ?? 1) } ?? "failed"\nx',
+    'map_values(., recursive: true) -> |v| { if is_string(v) { upcase!(v) } else { v } }',
+    'map_keys(., recursive: true) -> |k| { if k == "arr" { "ARR" } else { k } }',
+    'for_each(.obj) -> |k, v| { .out = [k, v] }\nfilter(.arr) -> |i, v| { i != 0 && v != null }',
+    'replace_with("foo bar baz", r\'\\w+\') -> |m| { upcase(m.string) }',
+]
+
+
+def post_run(tier, seed, merged):
+    if tier != "thorough":
+        return
+    from .. import sanitize
+    from ..gen.program import core_event
+    from ..wire import enc
+    import random
+    rng = random.Random(seed)
+    reqs = list(merged.get("recorded", []))[:24]
+    ev = enc(core_event(rng))
+    for src in MIRI_PROGRAMS:
+        reqs.append({"op": "run", "src": src, "probe": False, "events": [{"e": ev}]})
+    res = sanitize.miri_replay(reqs, "C13")
+    merged["sanitizers"]["miri"] = {k: v for k, v in res.items() if k != "stderr"}
+    if res["status"] == "report":
+        merged["violations"]["miri:%s@%s" % (res["kind"][:60], res.get("location", "?"))] = {
+            "count": 1, "detail": {"stderr": res.get("stderr"), "requests": len(reqs)}, "case": {"requests": reqs},
+            "index": None, "proc": None}
